@@ -10,6 +10,12 @@ def cpsOf : Json → List Char
     | _ => Char.ofNat 0
   | _ => []
 
+def natsOf : Json → List Nat
+  | .arr a => a.toList.map fun x => match x with
+    | .num n => n.mantissa.toNat
+    | _ => 0
+  | _ => []
+
 def cpsJson (l : List Char) : Json := .arr (l.map fun c => Json.num (c.toNat : Int)).toArray
 
 def optCps : Option (List Char) → Json
@@ -86,6 +92,18 @@ def handleReport (j : Json) : Json :=
          ("flow_credits", .num (flowCredits ts)), ("flow_cash", .num (flowCash ts)),
          ("json_income", .num (jsonIncome ts)), ("json_credits", .num (jsonCredits ts)),
          ("json_net", match jsonNet ts with | some v => .num v | none => .null)]
+  | "calendar" =>
+    -- days = [[y, m, d], …]: validity, the two strftime texts, the month keys in first-appearance order, num_months
+    let days : List (Nat × Nat × Nat) := (jarr j "days").map fun x =>
+      match natsOf x with
+      | [y, m, d] => (y, m, d)
+      | _ => (0, 0, 0)
+    obj [("valid", .arr (days.map fun (y, m, d) => Json.bool (validDay y m d)).toArray),
+         ("leap", .arr (days.map fun (y, _, _) => Json.bool (isLeap y)).toArray),
+         ("month", .arr (days.map fun (y, m, _) => cpsJson (monthKey y m)).toArray),
+         ("day", .arr (days.map fun (_, m, d) => cpsJson (dayKey m d)).toArray),
+         ("months_seen", .arr ((monthsSeen days).map cpsJson).toArray),
+         ("num_months", .num (numMonths days : Nat))]
   | f => obj [("err", .str s!"unknown report fn {f}")]
 
 end TallyVerif.Driver
